@@ -101,7 +101,7 @@ def do_write(srv, cache, *, side, entry, key=None, algo="sha256", n=0, tag=0, ch
                     _drop(srv, h, rep)
                     return rep, trace
         else:
-            rep = call({"op": "w_write_all", "h": h, "data": spec})
+            rep = call({"op": write_op, "h": h, "data": spec})
             if "ok" not in rep:
                 _drop(srv, h, rep)
                 return rep, trace
